@@ -13,10 +13,10 @@ ASSUMPTIONS = [
     "costs are integers in [-2^40, 2^40] (reals for maxsum/amaxsum; DBA/GDBA: entries in {0, infinity}); numpy storage replaced by object arrays",
     "random draws arbitrary in their documented range (noise draws: symbolic reals in [0, noise]); periodic actions (A-DSA) fired on a canonical timing",
     "runs are cut after the stated number of transitions; a handler exception ends the path (exceptions are judged by C07/C01..., here only selections)",
-    "str-valued domains are used so that a number can never be mistaken for a domain value",
+    "str-valued domains, with values distinct from one variable to the next, are used so that neither a number nor a neighbour's value can be mistaken for a domain value",
 ]
 BOUNDS = {
-    "quick": "11 algorithms x {pair, pair+isolated variable} (+ chain-3 for dpop/syncbb/mgm), domain 2 (str values), min mode; canonical schedule, 40 transitions (16 for the never-ending synchronous ones: dsatuto, maxsum, amaxsum)",
+    "quick": "11 algorithms x {pair, pair+isolated variable} (+ chain-3 for dpop/syncbb/mgm), domain 2 (str values, distinct per variable), min mode; canonical schedule, 40 transitions (16 for the never-ending synchronous ones: dsatuto, maxsum, amaxsum)",
     "thorough": "quick + max mode, all schedules on the pair, chain-3 for every algorithm, 60 transitions",
 }
 OUTSIDE = "more than 3 variables, domains above 2, runs beyond the transition budget, mixeddsa/ncbb/maxsum_dynamic (not in the property's list)"
@@ -33,15 +33,15 @@ def jobs(tier):
             steps = 16 if algo in ("dsatuto", "maxsum", "amaxsum") else 40
             if algo == "dsa" and s == "chain3":
                 steps = 20
-            out.append({"name": "%s-%s-min" % (algo, s), "algo": algo, "spec": spec(s, "min", domain_kind="str"),
+            out.append({"name": "%s-%s-min" % (algo, s), "algo": algo, "spec": spec(s, "min", domain_kind="own"),
                         "fixed": True, "steps": steps})
         if tier == "thorough":
-            out.append({"name": "%s-pair-max" % algo, "algo": algo, "spec": spec("pair", "max", domain_kind="str"),
+            out.append({"name": "%s-pair-max" % algo, "algo": algo, "spec": spec("pair", "max", domain_kind="own"),
                         "fixed": True, "steps": 60})
-            out.append({"name": "%s-pair-min-allsched" % algo, "algo": algo, "spec": spec("pair", "min", domain_kind="str"),
+            out.append({"name": "%s-pair-min-allsched" % algo, "algo": algo, "spec": spec("pair", "min", domain_kind="own"),
                         "fixed": False, "steps": 30})
             if "chain3" not in structs:
-                out.append({"name": "%s-chain3-min" % algo, "algo": algo, "spec": spec("chain3", "min", domain_kind="str"),
+                out.append({"name": "%s-chain3-min" % algo, "algo": algo, "spec": spec("chain3", "min", domain_kind="own"),
                             "fixed": True, "steps": 60})
     return out
 
